@@ -833,6 +833,11 @@ class C18Queue(Monitor):
                 mech = h.env.mechatronics[w.mechatronics_id]
                 if cs is None or not mech.valid_charger(cs.charger):
                     continue  # can never be granted this plug; skipping it is not queue-jumping
+                if mech.is_full(w):
+                    # HIVE refuses to start a session for a vehicle it considers full (within 0.1 kWh of capacity for a
+                    # BEV): such a queue member cannot be granted the plug either, whatever its place in the queue
+                    h.flag("full_vehicle_waiting_in_queue")
+                    continue
                 kw = (self.joined[w.id][2], w.id)
                 if kw[0] == kv[0]:
                     h.flag("equal_time_tie")
